@@ -99,7 +99,7 @@ func c05r1(w *World, rr *RuleRun) {
 				continue
 			}
 			n++
-			rr.At(w, e.Site, what, within(e.Caller, allowed), "called from "+shortFuncName(e.Caller))
+			rr.At(w, e.Site, what, w.withinUp(e.Caller, allowed), "called from "+shortFuncName(e.Caller))
 		}
 		if n == 0 {
 			rr.ObligeTrivial(shortFuncName(callee), what, w.P.Pos(callee.Pos()), true, "no caller at all")
